@@ -7,10 +7,17 @@ package merkle
 //@ spec H2(l Bytes, r Bytes) Bytes
 //@ define proofOK(s Slice, e IntBytesArr, index Int, total Int, leaf Bytes, root Bytes) Bool = mroot(index, total, leaf, e, off(s), len(s)) != nil && bytesEq(mroot(index, total, leaf, e, off(s), len(s)), root)
 
+// an inner node commits to the BOUNDARY between its two operands: each one is written with its length prefix, left first,
+// and the hash is taken over exactly these two records (that the hash of this encoding is H2(left, right) is the naming
+// of an uninterpreted function, not a proof)
 //@ func SimpleHashFromTwoHashes
-//@   trusted
-//@   pure
-//@   ensures result == H2(left, right) && result != nil
+//@   props C17
+//@   nosafety
+//@   trusted-assigns nothing
+//@   trusted-ensures result == H2(left, right) && result != nil
+//@   atcall WriteByteSlice assert [operands-are-length-prefixed-left-first] bytesEq(arg_bz, ite(calls(WriteByteSlice) == 0, left, right)) && calls(WriteByteSlice) <= 1
+//@   atcall DoHash assert [hash-over-both-length-prefixed-operands] calls(WriteByteSlice) == 2
+//@   ensures  [one-hash-of-two-records] calls(WriteByteSlice) == 2 && calls(DoHash) == 1
 
 // mroot(i, t, leaf, e, o, k): the root computed from leaf hash `leaf` at position i of t leaves and the first k aunts
 // e[o..o+k) (nil when the number of aunts is not exactly the depth of that leaf or the position is out of range)
